@@ -16,7 +16,9 @@ import (
 // between the server's clock and the local one, installed by an agent after a time sync) is a
 // configuration of the library. What C11 states about the queues does not mention it, so it
 // must hold under every value of it. clockDeltas[0] is the control.
-var clockDeltas = []int64{0, -1, -1000, -60000, -86400000, 1, 2500, 3600000}
+// +1 h comes before the small positive ones: a get that waits "t + delta" is then reported by (c)
+// after one watchdog instead of first spending 2.5 s in every get of the +2.5 s round.
+var clockDeltas = []int64{0, -1, -1000, -60000, -86400000, 3600000, 1, 2500}
 
 // deltas for the sections that are re-run under a correction (seq/lin/conc/wake "-cd"): the
 // negative ones and +1 ms only. Those sections call GetTimeout(0..2) on possibly empty queues
@@ -32,9 +34,19 @@ func secName(prefix string, kind int) string {
 	return prefix + []string{"rq", "dq"}[kind] + secSuffix
 }
 
+// deltaFrozen: a library call was abandoned (still running) during the clock-delta phase. It may
+// read the process-wide delta at any time; dateutil.SetDelta is a plain store, so writing it
+// again from here would be a data race of the monitor's own making (and would change the
+// conditions of a call that is still being observed). The delta is left as it is and the rest
+// of the phase is given up (counted as abandoned cases).
+var deltaFrozen bool
+
 // setDelta installs a clock correction and checks (monitor sanity, not a verdict on golib's
-// queues) that the library reports it back.
+// queues) that the library reports it back. No-op once deltaFrozen.
 func setDelta(c *vlib.Ctx, d int64) {
+	if deltaFrozen {
+		return
+	}
 	dateutil.SetDelta(d)
 	if got := dateutil.GetDelta(); got != d {
 		panic(fmt.Sprintf("wC11: dateutil.SetDelta(%d) not in effect (GetDelta()=%d): the clock-delta phase would observe nothing", d, got))
@@ -44,9 +56,20 @@ func setDelta(c *vlib.Ctx, d int64) {
 // withSideDelta runs one case of a re-run section under one of sideDeltas and restores 0.
 // The sections are sequential in this process: nothing else reads the clock meanwhile.
 func withSideDelta(c *vlib.Ctx, section string, i int, fn func()) {
+	if deltaFrozen {
+		abandonSection(c, section, "the clock delta can no longer be changed: a library call abandoned earlier in the clock-delta phase is still running")
+		skipAbandoned(c, section, i)
+		return
+	}
+	stalls0 := atomic.LoadInt32(&stallsSeen)
 	d := sideDeltas[c.Rand(fmt.Sprintf("%s#%d/clock-delta", section, i)).Intn(len(sideDeltas))]
 	setDelta(c, d)
-	defer setDelta(c, 0)
+	defer func() {
+		if atomic.LoadInt32(&stallsSeen) != stalls0 {
+			deltaFrozen = true
+		}
+		setDelta(c, 0)
+	}()
 	c.Count("cd_cases", 1)
 	c.SetAdd("cd_sections_x_delta", fmt.Sprintf("%s/delta=%dms", section, d))
 	fn()
@@ -69,6 +92,9 @@ func withSideDelta(c *vlib.Ctx, section string, i int, fn func()) {
 //	    inconclusive. No upper bound is asserted on a get that does return.
 func tdeltaCase(c *vlib.Ctx, kind int, i int, r *vlib.Rand) {
 	section := secName("tdelta-", kind)
+	if deltaFrozen {
+		abandonSection(c, section, "the clock delta can no longer be changed: a library call abandoned earlier in the clock-delta phase is still running")
+	}
 	if skipAbandoned(c, section, i) {
 		return
 	}
@@ -113,6 +139,7 @@ func tdeltaCase(c *vlib.Ctx, kind int, i int, r *vlib.Rand) {
 				// the get (or a call around it) has not come back within t + watchdog
 				atomic.StoreInt32(&gaveUp, 1)
 				atomic.AddInt32(&stallsSeen, 1)
+				deltaFrozen = true // the deferred restore becomes a no-op
 				at := fmt.Sprint(step.Load())
 				ctl, haveCtl := control[t]
 				detail := map[string]interface{}{"type": T, "case": caseID, "variant": map[int]string{0: "empty", 1: "drawn (see stuck_at)"}[pass], "timeout_ms": t, "clock_delta_ms": d, "watchdog_ms": wd.Milliseconds(), "stuck_at": at,
